@@ -107,7 +107,8 @@ def replay_one(args):
         o = owner(kind, cfg[kind][ty])
         if o is not None:
             fm[key] = o
-    ops = [{"type": h["type"], "len": h["len"] * BLOCK, "fill": i + 1} for i, h in enumerate(hist)]
+    # (hand-written histories name their fill - the same data written again - and may hold steps of another process: `external`)
+    ops = [{"type": h["type"], "len": h["len"] * BLOCK, "fill": h.get("fill", i + 1), "external": bool(h.get("external"))} for i, h in enumerate(hist)]
     # every fifth history runs on a "full disk": no file may grow beyond one and a half blocks, longer writes fail half-way
     limit = BLOCK + BLOCK // 2 if idx % 5 == 4 else None
     r = probe("storage", {"fm": fm, "umask": to_int(cfg["umask"]), "ops": ops}, fsize_limit=limit)
@@ -121,6 +122,11 @@ def replay_one(args):
                 runs = [{"fill": b, "len": (c // BLOCK if c % BLOCK == 0 else -c)} for b, c in s["runs"]]
                 return {"exists": True, "runs": runs, "mode": to_bits(s["mode"]), "uid": s["uid"], "gid": s["gid"]}
             return {"exists": False, "runs": [], "mode": [], "uid": 0, "gid": 0}
+        if h.get("external"):
+            if not res.get("ok"):
+                return idx, ev, "the harness could not replace the file: %s" % res
+            ev.append({"e": "External", "type": h["type"], "seen": obs(res["seen"])})
+            continue
         if not res.get("ok"):
             if limit is None or "seen" not in res:
                 return idx, ev, "write failed: %s" % res
